@@ -255,3 +255,174 @@ Proof.
   { eapply etcd_mutex; eauto; apply holds_spec; split; auto; apply L; eauto using nth_error_In; congruence. }
   subst. inversion Hnd. apply H3. left; auto.
 Qed.
+
+(* ---- the acceptor only ever moves along paths of the transition system ---- *)
+Record ainv (a : acc) : Prop := mkAinv {
+  ai_p : pinv (a_in a) (a_sys a);
+  ai_lose : a_lose a = [];
+  ai_nd : NoDup (a_in a) }.
+
+Ltac crack H :=
+  repeat match type of H with
+  | match ?x with _ => _ end = Some _ => let E := fresh "E" in destruct x eqn:E; try discriminate
+  | (if ?b then _ else _) = Some _ => let E := fresh "E" in destruct b eqn:E; try discriminate
+  | opt_bind ?o _ = Some _ => let E := fresh "E" in destruct o eqn:E; cbn [opt_bind] in H; try discriminate
+  end.
+
+Lemma okl_plain : forall ins l,
+  match l with LRevoke _ | LTick _ | LExit _ => False | _ => True end -> okl ins l.
+Proof. intros ins l H. destruct l; simpl in *; auto; contradiction. Qed.
+
+Ltac solve_path :=
+  first [ apply path_refl
+        | eapply path_one; [eassumption|simpl; auto]
+        | eapply path_step; [eassumption|simpl; auto|solve_path] ].
+
+Lemma try_mut_ainv : forall a m l a', try_mut a m l = Some a' -> ainv a -> ainv a' /\ a_in a' = a_in a.
+Proof.
+  intros a m l a' H [P Lo Nd]. unfold try_mut in H. rewrite Lo in H. cbn [existsb] in H.
+  destruct m; crack H; inversion H; subst a'; cbn [a_sys a_lose a_in]; (split; [|reflexivity]);
+    (split; cbn [a_sys a_lose a_in]; auto);
+    (eapply path_pinv; [|exact P]); solve_path.
+Qed.
+
+Lemma settle_ret_path : forall ins s i s', settle_ret s i = Some s' -> path ins s s'.
+Proof.
+  intros ins s i s' H. unfold settle_ret in H. crack H; try (inversion H; subst; constructor).
+  - eapply path_step; [eauto|simpl; auto|]. eapply path_one; eauto. simpl; auto.
+  - eapply path_one; eauto. simpl; auto.
+Qed.
+
+Lemma settle_ctx_path : forall ins s i, path ins s (settle_ctx s i).
+Proof.
+  intros ins s i. unfold settle_ctx.
+  destruct (step s (LKeepAlive i)) as [s1|] eqn:E1.
+  - destruct (step s1 (LWatch i)) as [s2|] eqn:E2.
+    + eapply path_step; [eauto|simpl; auto|]. eapply path_one; eauto. simpl; auto.
+    + eapply path_one; eauto. simpl; auto.
+  - destruct (step s (LWatch i)) as [s2|] eqn:E2; [|constructor].
+    eapply path_one; eauto. simpl; auto.
+Qed.
+
+Lemma pinv_weaken : forall ins ins' s, (forall i, In i ins' -> In i ins) -> pinv ins s -> pinv ins' s.
+Proof. intros ins ins' s H [R L Hd]. split; auto. intros i Hi. apply Hd. auto. Qed.
+
+Definition not_lose (e : cev) : Prop := match e with ELose _ _ => False | _ => True end.
+
+Definition next_in (ins : list nat) (e : cev) : list nat :=
+  match e with
+  | EEnter i => i :: ins
+  | EExit i => filter (fun j => negb (Nat.eqb i j)) ins
+  | _ => ins
+  end.
+
+Lemma existsb_nat_false : forall i l, existsb (Nat.eqb i) l = false -> ~ In i l.
+Proof.
+  intros i l H Hi. assert (existsb (Nat.eqb i) l = true); [|congruence].
+  apply existsb_exists. exists i. split; auto. apply Nat.eqb_refl.
+Qed.
+
+Lemma do_ev_ainv : forall a e a', do_ev a e = Some a' -> not_lose e -> ainv a ->
+  ainv a' /\ a_in a' = next_in (a_in a) e.
+Proof.
+  intros a e a' H Hnl [P Lo Nd]. destruct e; simpl in Hnl; try contradiction; unfold do_ev in H; cbn [next_in].
+  - (* ECall *)
+    crack H. inversion H; subst a'; cbn [a_sys a_lose a_in]. split; [|reflexivity].
+    split; cbn [a_sys a_lose a_in]; auto. eapply path_pinv; [|exact P]. solve_path.
+  - (* EEnter *)
+    crack H. inversion H; subst a'; cbn [a_sys a_lose a_in]. split; [|reflexivity].
+    assert (P' : pinv (a_in a) s) by (eapply path_pinv; [eapply settle_ret_path; eauto|exact P]).
+    split; cbn [a_sys a_lose a_in]; auto.
+    + destruct P' as [R L Hd]. split; auto. intros j [<-|Hj]; auto.
+    + constructor; auto. apply existsb_nat_false; auto.
+  - (* EFail *)
+    crack H. inversion H; subst a'; cbn [a_sys a_lose a_in]. split; [|reflexivity].
+    split; cbn [a_sys a_lose a_in]; auto. eapply path_pinv; [eapply settle_ret_path; eauto|exact P].
+  - (* EExit *)
+    crack H. inversion H; subst a'; cbn [a_sys a_lose a_in]. split; [|reflexivity].
+    set (ins' := filter (fun j => negb (Nat.eqb i j)) (a_in a)).
+    assert (Hsub : forall j, In j ins' -> In j (a_in a)) by (intros j Hj; apply filter_In in Hj; tauto).
+    assert (Hni : ~ In i ins').
+    { intro Hi. apply filter_In in Hi. destruct Hi as [_ Hi]. rewrite Nat.eqb_refl in Hi. discriminate. }
+    split; cbn [a_sys a_lose a_in]; auto.
+    + eapply path_pinv; [|eapply pinv_weaken; [exact Hsub|exact P]].
+      eapply path_one; [eassumption|simpl; exact Hni].
+    + apply NoDup_filter. auto.
+  - (* EURet *)
+    crack H; inversion H; subst a'; cbn [a_sys a_lose a_in]; (split; [|reflexivity]);
+      (split; cbn [a_sys a_lose a_in]; auto); (eapply path_pinv; [|exact P]).
+    all: match goal with E : match pc_at _ _ with _ => _ end = Some _ |- _ => crack E; inversion E; subst end; solve_path.
+  - (* ELost *)
+    crack H. inversion H; subst a'. split; [split; auto|reflexivity].
+  - (* ECtx *)
+    crack H. inversion H; subst a'; cbn [a_sys a_lose a_in]. split; [|reflexivity].
+    split; cbn [a_sys a_lose a_in]; auto. eapply path_pinv; [apply settle_ctx_path|exact P].
+Qed.
+
+Fixpoint no_lose (l : log) : Prop :=
+  match l with
+  | [] => True
+  | (_, e) :: r => not_lose e /\ no_lose r
+  end.
+
+Lemma mutex_scan_step : forall t e r ins,
+  (match e with EEnter _ => ins = [] | _ => True end) ->
+  mutex_scan ((t, e) :: r) ins = mutex_scan r (next_in ins e).
+Proof.
+  intros t e r ins H. destruct e; simpl; auto. subst ins. reflexivity.
+Qed.
+
+(* a log (without injected losses) explained by the model has no two overlapping
+   critical sections *)
+Theorem accept_mutex : forall fuel a muts (l : log),
+  accept fuel a muts (map snd l) = true -> ainv a -> no_lose l -> mutex_scan l (a_in a) = true.
+Proof.
+  induction fuel as [|f IH]; intros a muts l H Hinv Hnl; simpl in H; [discriminate|].
+  assert (Hev : forall e r (l0 : log) muts0, l = e :: l0 -> r = map snd l0 ->
+            forall a', do_ev a (snd e) = Some a' -> accept f a' muts0 r = true ->
+            mutex_scan l (a_in a) = true).
+  { intros [t e] r l0 muts0 -> -> a' Hd Hacc. destruct Hnl as [Hn1 Hn2]. simpl in Hd.
+    destruct (do_ev_ainv _ _ _ Hd Hn1 Hinv) as [Hinv' Hin'].
+    rewrite mutex_scan_step.
+    - rewrite <- Hin'. eapply IH; eauto.
+    - destruct e; auto.
+      (* entering: the inside list must have been empty *)
+      destruct Hinv' as [P' _ Nd']. rewrite Hin' in *. cbn [next_in] in *.
+      pose proof (pinv_inside_le_one _ _ P' Nd') as Hlen. simpl in Hlen.
+      destruct (a_in a); auto. simpl in Hlen. lia. }
+  destruct muts as [|m muts'].
+  - destruct l as [|e l0]; [reflexivity|]. simpl in H.
+    destruct (do_ev a (snd e)) as [a'|] eqn:Hd; [|discriminate]. eapply Hev; eauto.
+  - destruct (try_mut a m (map snd l)) as [a1|] eqn:Hm.
+    + destruct (try_mut_ainv _ _ _ _ Hm Hinv) as [Hinv1 Hin1]. rewrite <- Hin1. eapply IH; eauto.
+    + destruct l as [|e l0]; [discriminate|]. simpl in H.
+      destruct (do_ev a (snd e)) as [a'|] eqn:Hd; [|discriminate]. eapply Hev; eauto.
+Qed.
+
+Lemma run_skip_path : forall ls s,
+  (forall l, In l ls -> okl [] l) -> path [] s (run_skip step s ls).
+Proof.
+  induction ls as [|l t IH]; intros s H; simpl; [constructor|].
+  destruct (step s l) as [s'|] eqn:E.
+  - eapply path_step; [eauto|apply H; left; auto|]. apply IH. intros; apply H; right; auto.
+  - apply IH. intros; apply H; right; auto.
+Qed.
+
+Lemma init_ainv : forall ttls, ainv (mkAcc (sys_of ttls) [] []).
+Proof.
+  intros ttls. split; cbn [a_sys a_lose a_in]; auto; [|constructor].
+  unfold sys_of. eapply path_pinv.
+  - apply run_skip_path. intros l Hl. apply in_map_iff in Hl. destruct Hl as [x [<- _]]. simpl; auto.
+  - split.
+    + apply reachable_refl.
+    + intros c [].
+    + intros i [].
+Qed.
+
+(* the tie: agreement with the model implies the mutual-exclusion clause of C18_ok *)
+Theorem etcd_agree_implies_mutex_ok : forall c,
+  agree c = true -> no_lose (k_log c) -> mutex_ok (k_log c) = true.
+Proof.
+  intros c H Hnl. unfold agree in H. unfold mutex_ok.
+  apply (accept_mutex _ _ _ _ H (init_ainv (k_ttl c)) Hnl).
+Qed.
